@@ -215,7 +215,7 @@ package netpoll
 //@ func (*dialer).DialConnection
 //@   property C14
 //@   ensures (err == nil) == (connection != nil)
-//@   modifies world
+//@   modifies world, fdopen, closecnt, FDOperator.owned, operatorCache.ocl, operatorCache.ofl, runFailed, wwDetached, ocBase, netFD.dialing, sockFd, sockClosed, sockOpen, nonblock, key:netpoll.connection.setup, key:netpoll.connection.operator, locker.heldP, locker.heldC, locker.sealed_heldP, prepDone, prepRegistered, prepOK, cbRuns, dlOpened, dlClosed, dlKept, netFD.closed
 
 // a netFD being dialled is not yet visible to any other goroutine or callback ("c is not yet accessible to user")
 //@ ghost field netFD.dialing bool threadlocal
